@@ -590,6 +590,18 @@ class AsyncFIXConnection:
 
         if self._connection_role == ConnectionRole.ACCEPTOR:
             assert self._connection_state == ConnectionState.LOGON_INITIAL_RECV
+            if (
+                FTag.EncryptMethod not in logon_msg
+                or FTag.HeartBtInt not in logon_msg
+            ):
+                # Logon can't be answered, session is not established
+                await self.disconnect(
+                    ConnectionState.DISCONNECTED_BROKEN_CONN,
+                    logout_message=(
+                        "Logon(35=A) must have EncryptMethod(98) and HeartBtInt(108)"
+                    ),
+                )
+                return
             if msg_seq_num >= self._session.next_num_in:
                 msg_logon = FIXMessage(FMsg.LOGON)
                 msg_logon.set(FTag.EncryptMethod, logon_msg[FTag.EncryptMethod])
